@@ -36,7 +36,7 @@ def main(tier):
     b = build.vbuild("asan")
     quick = tier == "quick"
     res = core.Result()
-    prof = {"virtual": True, "fail_texts": texts, "p_garbage": 0.02, "p_term_restart": 0.02, "max_rcpts": 4,
+    prof = {"virtual": True, "fail_texts": texts, "p_overlong_forge": 0.06, "hold_reports": 0.45, "p_garbage": 0.02, "p_term_restart": 0.02, "max_rcpts": 4,
             "senders": ["user", "user-remote", "empty", "empty", "double", "verp", "verp"],
             "lifetimes": [604800, 604800, 500, 0]}
     res.merge(histrun.run(PROP, b, core.scaled(1500 if quick else 12000), prof, ORACLES, salt="h"))
